@@ -537,6 +537,86 @@ def gen_boxes(rng, n):
     return out
 
 
+def gen_grids(rng, n):
+    """whole Voronoi grids: simulation box x generator distribution (regular lattice, perturbed
+    lattice, random), 8..200 generators"""
+    boxes = [((0., 0., 0.), (1., 1., 1.)), ((-0.5, -0.5, -0.5), (1., 1., 1.)),
+             ((-1.543e17, -1.543e17, -1.543e17), (3.086e17, 3.086e17, 3.086e17)), ((0., 0., 0.), (3., 1., 2.)),
+             ((0., 50.5, 0.), (0.3, 0.3, 0.3)), ((-5., -5., -5.), (10., 10., 10.)), ((2., 3., 5.), (0.7, 1.9, 0.2)),
+             ((0., 0., 0.), (3.086e16, 6.172e16, 3.086e16))]
+    kinds = ["regular", "regular", "perturbed", "random"]
+    out, meta = [], []
+    for k in range(n):
+        a, sd = boxes[k % len(boxes)] if k < 2 * len(boxes) else (
+            tuple(_offset(rng) for _ in range(3)), tuple(_side(rng, rng.choice([1., 0.3, 10., 3.086e16])) for _ in range(3)))
+        kind = kinds[(k // len(boxes) + k) % len(kinds)] if k < 2 * len(boxes) else rng.choice(kinds)
+        pts = []
+        if kind in ("regular", "perturbed"):
+            nx, ny, nz = (rng.randint(2, 5) for _ in range(3))
+            if rng.random() < 0.5:
+                ny = nz = nx
+            jit = 0. if kind == "regular" else 10 ** rng.uniform(-12, -1)
+            for i in range(nx):
+                for j in range(ny):
+                    for l in range(nz):
+                        f = [(i + 0.5) / nx, (j + 0.5) / ny, (l + 0.5) / nz]
+                        if jit:
+                            f = [min(0.999, max(0.001, x + jit * (rng.random() - 0.5))) for x in f]
+                        pts.append(tuple(a[c] + f[c] * sd[c] for c in range(3)))
+        else:
+            for _ in range(rng.randint(8, 200)):
+                pts.append(tuple(a[c] + (0.001 + 0.998 * rng.random()) * sd[c] for c in range(3)))
+        pts = pts[:200]
+        vals = list(a) + list(sd) + [c for g in pts for c in g]
+        out.append("grid " + " ".join(str(vlib.f2bits(x)) for x in vals))
+        meta.append({"box": [list(a), list(sd)], "generators": len(pts), "distribution": kind})
+    return out, meta
+
+
+def run_grids(ctx, h):
+    """caller-premise stream: the real grid construction with every predicate call audited
+    (implementation-level oracle, no model)"""
+    ops, meta = gen_grids(ctx.rng, ctx.budget(10, 160))
+    rc, out, err = vlib.run_exe(h, "\n".join(ops) + "\n")
+    ans, orc = vlib.split_oracle(out)
+    st = ctx.cov["correspondence_streams"].setdefault("grid", {"lines": 0, "mismatches": 0, "oracle_failures": 0})
+    st["lines"] += len(ops)
+    st["oracle_failures"] += len(orc)
+    tot = {"grids": len(ans), "generators": 0, "orient3d_adaptive_calls": 0, "insphere_adaptive_calls": 0,
+           "exact_calls": 0, "calls_outside_range": 0, "calls_wrong_sign": 0}
+    for a in ans:
+        w = a.split()
+        if len(w) == 7 and w[0] == "grid":
+            for key, v in zip(["generators", "orient3d_adaptive_calls", "insphere_adaptive_calls", "exact_calls",
+                               "calls_outside_range", "calls_wrong_sign"], w[1:]):
+                tot[key] += int(v)
+    ctx.cov["grid_construction"] = tot
+    ctx.count(len(ans))
+    for op, m in zip(ops, meta):
+        ctx.distinct(op, nontrivial=False)
+    if meta:
+        ctx.sample({"family": "grid", "what": meta[0], "impl": ans[0] if ans else None})
+    if rc != 0 or len(ans) != len(ops):
+        k = min(len(ans), len(ops) - 1)
+        ctx.violation("grid:impl-crash", "grid construction harness exited with status %d after %d of %d grids: %s"
+                      % (rc, len(ans), len(ops), err[-300:]), {"stream": "grid", "ops": [ops[k]], "what_grid": meta[k]})
+    import re
+    for o in orc:
+        m = re.search(r"line=(\d+)", o)
+        i = int(m.group(1)) - 1 if m else 0
+        what = re.sub(r"line=\d+\s*", "", o[len("ORACLE"):]).strip()
+        for part in what.split(" "):
+            key = part.split(":")[0]
+            if key:
+                ctx.violation(key, "property fails on the implementation (grid %s): %s" % (json_dumps(meta[i]), part[:700]),
+                              {"stream": "grid", "ops": [ops[i]], "oracle": o[:2000], "what_grid": meta[i]})
+
+
+def json_dumps(x):
+    import json
+    return json.dumps(x)
+
+
 ALL_BRANCHES = [op + ":" + b for op in ("o", "i")
                 for b in ("filter-pos", "filter-neg", "fallback-pos", "fallback-neg", "fallback-zero")]
 
@@ -568,11 +648,15 @@ def run(ctx):
         "(bit-identical to the Lean Float model, oracle rescaled-coordinate-outside-[1,2) / rescaling-not-monotone); "
         "the link value <-> mantissa is proved for every double in [1,2) against the shared decoder Util.ratOfBits (get_mantissa_value) "
         "and get_mantissa itself is compared on single patterns; "
+        "that the callers in NewVoronoiCellConstructor hand only rescaled coordinates to the predicates is a caller obligation outside the "
+        "Lean model: it is audited on the implementation (stream 'grid': every predicate call of complete grid constructions, keys "
+        "caller-passes-coordinate-outside-[1,2) and predicate-sign-differs-in-grid-construction); "
         "outside [1,2) only the exact routines (mantissa field only) are compared",
     ]
     ok = ctx.obligations("CMacVerif.Props.C17", ["drv_c17"])
-    h = vlib.build_harness("c17", extra=[os.path.join(vlib.REPO, "src", "NewVoronoiGrid.cpp"),
-                                         os.path.join(vlib.REPO, "src", "NewVoronoiCellConstructor.cpp")])
+    # one translation unit: the harness includes the tree's NewVoronoiCellConstructor.cpp and
+    # NewVoronoiGrid.cpp itself (against the auditing ExactGeometricTests class)
+    h = vlib.build_harness("c17")
     n_o = ctx.budget(12000, 600000)
     n_i = ctx.budget(12000, 600000)
     n_e = ctx.budget(2000, 50000)
@@ -590,6 +674,10 @@ def run(ctx):
         "real exact and adaptive routine and by the Lean model, and on the implementation additionally under all transpositions "
         "(must negate) and all 3-cycles (must keep) of the points; distinct = different op line; non-trivial = the adaptive routine's "
         "filter was undecided (fallback to exact arithmetic) or the configuration is exactly degenerate; "
+        "third stream 'grid' (implementation-level oracle, never non-trivial): whole Voronoi grids (boxes [0,1]^3, [-0.5,0.5]^3, parsec scale, "
+        "non-cubic, offset; regular / perturbed lattices and random generators, 8..200) built by the tree's own NewVoronoiGrid and "
+        "NewVoronoiCellConstructor compiled against an auditing ExactGeometricTests class: every argument of every predicate call must lie in "
+        "[1,2) and every returned sign must be the exact sign for the actual doubles; "
         "single patterns for get_mantissa (every single mantissa bit, boundaries of [1,2), other exponents, sign, inf/nan/subnormal; oracle: value = "
         "1 + mantissa/2^52 for doubles in [1,2); never non-trivial); second stream 'rescale' (never counted as non-trivial): simulation boxes (anchor with independent per-axis offsets 0, +-1e-3..1e6, "
         "dyadic / short decimal / generic, sides with independent per-axis factors, generators on lower faces and corners, next to the "
@@ -614,6 +702,7 @@ def run(ctx):
         ctx.distinct(b, nontrivial=False)
     if boxes and bimpl:
         ctx.sample({"family": "rescale", "op": boxes[min(7, len(boxes) - 1)], "impl": bimpl[min(7, len(bimpl) - 1)]})
+    run_grids(ctx, h)
     same = 0
     fam = {}
     for op, cat, il, ml in zip(ops, cats, impl, model):
@@ -654,9 +743,20 @@ def run(ctx):
 
 
 def replay(ctx, path):
-    return vlib.generic_replay(ctx, path, "c17", "drv_c17", harness_kw=dict(
-        extra=[os.path.join(vlib.REPO, "src", "NewVoronoiGrid.cpp"),
-               os.path.join(vlib.REPO, "src", "NewVoronoiCellConstructor.cpp")]))
+    import json
+    obj = json.load(open(path))
+    if obj.get("stream") == "grid" and obj.get("ops"):
+        h = vlib.build_harness("c17")
+        rc, out, err = vlib.run_exe(h, "\n".join(obj["ops"]) + "\n")
+        ans, orc = vlib.split_oracle(out)
+        print("ops:\n  " + "\n  ".join(o[:200] + (" ..." if len(o) > 200 else "") for o in obj["ops"]))
+        print("implementation (rc=%d):\n  %s" % (rc, "\n  ".join(ans)))
+        if orc:
+            print("property oracle on the implementation:\n  " + "\n  ".join(orc))
+        bad = bool(orc) or rc != 0
+        print("REPRODUCED" if bad else "not reproduced")
+        return 1 if bad else 0
+    return vlib.generic_replay(ctx, path, "c17", "drv_c17")
 
 
 MANIFEST = dict(
